@@ -1320,6 +1320,15 @@ func (e *Engine) intrinsic(p *Path, fr *Frame, key string, fn *ssa.Function, arg
 		x := args[0].(*Term)
 		r := fpToBits(FPOp("fp.roundToIntegral", FP64, RTZ, toFP(x)), 64, st.Assume)
 		return Ite(fpIsNaN(x), x, r), true
+	case "math/bits::Len64", "math/bits::Len":
+		// exact: the number of bits needed to represent x (0 for x == 0)
+		use()
+		x := args[0].(*Term)
+		r := BVU(0, 64)
+		for k := 1; k <= 64; k++ {
+			r = Ite(BVCmp("bvuge", x, BVConst(bigPow2(k-1), 64)), BVU(uint64(k), 64), r)
+		}
+		return r, true
 	case "math::Signbit":
 		use()
 		return Eq(Extract(63, 63, args[0].(*Term)), BVU(1, 1)), true
